@@ -100,6 +100,7 @@ def runIter (S : Sem EV) : Workbook × IState EV → List DOp → List String
     else "rej" :: runIter S (wb, s) h
 
 def handle : List String → String
+  | ["c09", "skip"] => "!oracle-only"
   | "c09" :: mode :: n :: rest =>
     match n.toNat? with
     | none => "!bad-n"
